@@ -3,6 +3,7 @@
 package netpoll
 
 import (
+	"bytes"
 	"fmt"
 	"time"
 
@@ -80,13 +81,15 @@ func runC07(e *Env) {
 	localClose := e.Chance(1, 4)
 	pauses := e.Chance(1, 2)
 	data := streamBytes(stream, 0, total)
-	// Until needs delimiters: make every 13th byte a newline in the data when an Until call exists
+	// Until needs delimiters: the line an Until call is to return is exactly its n bytes long (the
+	// stream bytes themselves never contain a newline), so lines of 1..5000 bytes arrive in any chunking
+	off := 0
 	for i := range calls {
-		if calls[i].op == "Until" {
-			for j := 12; j < len(data); j += 13 {
-				data[j] = '\n'
-			}
-			break
+		if calls[i].op == "Until" && off+calls[i].n-1 < len(data) {
+			data[off+calls[i].n-1] = '\n'
+		}
+		if calls[i].op != "Peek" {
+			off += calls[i].n
 		}
 	}
 	e.Summary = fmt.Sprintf("mode=%d calls=%v total=%d ending=%d localClose=%v faults=%v async=%v", mode, calls, total, ending, localClose, faults, vtime.AsyncChan)
@@ -235,6 +238,9 @@ func runC07(e *Env) {
 					if len(got) == 0 || (got[len(got)-1] != '\n' && closeInvokedSeq < 0) {
 						e.Fail("read-length", "length/Until", "call %d Until returned %q without delimiter and nil error", i, trunc(got))
 					}
+					if k := bytes.IndexByte(got, '\n'); k >= 0 && k < len(got)-1 && closeInvokedSeq < 0 {
+						e.Fail("read-length", "length/Until-past-delimiter", "call %d Until returned %d bytes with a delimiter at position %d: it must stop at the first one", i, len(got), k)
+					}
 					check(i, got, "until")
 					consumed += len(got)
 				default:
@@ -275,6 +281,11 @@ func runC07(e *Env) {
 					e.Fail("eof-without-close", "eof/no-close/"+c.op, "call %d %s returned ErrEOF but the peer never closed", i, c.op)
 				}
 				if c.op == "Until" {
+					// everything the peer sent was buffered before its close was published: a complete
+					// line among it has to be returned, not handed back together with the error
+					if k := bytes.IndexByte(got, '\n'); k >= 0 && closeInvokedSeq < 0 {
+						e.Fail("eof-with-data", "eof/with-line/Until", "call %d Until returned ErrEOF and handed back %d bytes with a delimiter at position %d: the line was complete before the peer closed", i, len(got), k)
+					}
 					check(i, got, "until-eof")
 					consumed += len(got)
 				} else if b1 >= n {
@@ -321,6 +332,8 @@ func runC07(e *Env) {
 			why = "the connection is closed"
 		case avail >= c.n && c.op != "Until":
 			why = fmt.Sprintf("%d bytes are available for a call needing %d", avail, c.n)
+		case c.op == "Until" && consumed <= written && bytes.IndexByte(data[consumed:written], '\n') >= 0:
+			why = fmt.Sprintf("a delimiter is among the %d bytes that are available (position %d of them)", avail, bytes.IndexByte(data[consumed:written], '\n'))
 		case ending != 0 && peerDone:
 			why = "the peer closed its end and the poller is idle"
 		}
